@@ -304,7 +304,9 @@ func init() {
 	})
 	in("fmt.Errorf", func(st *State, c *frame, fn *ssa.Function, a []Value) Value {
 		format := st.concStrV(a[0])
+		st.lenientFmt++
 		hargs := st.hostArgs(c, a[1])
+		st.lenientFmt--
 		msg := fmt.Errorf(format, hargs...).Error()
 		// keep the wrapped error (first %w) for errors.Unwrap
 		var wrapped Value = Iface{}
@@ -648,6 +650,9 @@ func (st *State) toHost(c *frame, v Value, t types.Type, depth int) interface{} 
 		}
 		return st.toHost(c, x.V, x.T, depth+1)
 	case *Term:
+		if !x.IsConst() && st.lenientFmt > 0 {
+			return hostStringer("<symbolic>")
+		}
 		if !x.IsConst() {
 			bits := st.concretise(x, "formatting")
 			x = &Term{Op: OConst, Sort: x.Sort, Val: bits}
@@ -696,6 +701,9 @@ func (st *State) toHost(c *frame, v Value, t types.Type, depth int) interface{} 
 	case string:
 		return x
 	case *SymStr:
+		if st.lenientFmt > 0 {
+			return hostStringer("<symbolic string>")
+		}
 		return st.concStr(x)
 	case Slice:
 		if x.Nil {
